@@ -247,6 +247,9 @@ package common
 
 // ---- C08 / C18: the file-name index follows file creation and deletion ----
 // Paths are indexed under their base name (last "/" component) and, when it has a ".", under the stem before the first ".".
+// Every bucket of the two indexes is a real (non-nil) map: buckets are only ever created by InsertOneFile.
+//@ typeinv FileIndexInfo: nonnilvals(self.fileNameMap)
+//@ typeinv FileIndexInfo: nonnilvals(self.freFileNameMap)
 //@ func (*FileIndexInfo).InsertOneFile
 //@   props C08 C18
 //@   sweep C01
